@@ -348,6 +348,7 @@ func scalarJSON(kind, canon string) *sjson.Value {
 	return sjson.S(canon)
 }
 
+// reqParts: own is "<id>/<tier>" - both required sub-fields of the external object.
 func reqParts(rep map[string]any) (ext, num, own string) {
 	ext, _ = rep["ext"].(string)
 	if n, ok := rep["num"].(json.Number); ok {
@@ -355,6 +356,8 @@ func reqParts(rep map[string]any) (ext, num, own string) {
 	}
 	if o, ok := rep["own"].(map[string]any); ok {
 		own, _ = canonLeaf(o["id"])
+		t, _ := o["tier"].(string)
+		own += "/" + t
 	}
 	return
 }
@@ -375,7 +378,8 @@ func (m *schemaModel) expectedEntity(rt route, rep map[string]any) *sjson.Value 
 		case tm.Requires && sf.Name == "num":
 			o.Set("num", scalarJSON("Int", num))
 		case tm.Requires && sf.Name == "own":
-			o.Set("own", sjson.O().Set("id", sjson.S(own)))
+			parts := append(strings.SplitN(own, "/", 2), "")
+			o.Set("own", sjson.O().Set("id", sjson.S(parts[0])).Set("tier", sjson.S(parts[1])))
 		case tm.Requires && sf.Name == "both":
 			o.Set("both", sjson.S("B|"+rt.Vals[0]+"|"+ext+"|"+num))
 		case tm.Requires && sf.Name == "nested":
